@@ -91,7 +91,7 @@ func init() {
 		ID:        "C06",
 		NewGen:    func() Generator { return &genAll{reps: 3} },
 		NewOracle: func() Oracle { return &oracleC06{} },
-		Runs:      map[string]int{"quick": 120, "thorough": 3000},
+		Runs:      map[string]int{"quick": 80, "thorough": 2400},
 		Required:  []string{"reward_block_4plus_provers", "restart_happened", "tx_compared_on_replicas"},
 		Rule: "all-modules workload (storage mixed profile + name service + file tree + notifications in every block) executed call by call on the primary and three independent replicas (own database, own process-local state), with PRNG-chosen crash/restart of any node mid-block; every BeginBlock event list, DeliverTx code/gas/data/events, EndBlock and AppHash is compared; thorough tier re-executes sampled schedules in fresh OS processes with other GOMAXPROCS; " +
 			"non-trivial = a reward block with at least four listed provers ran on all replicas; distinct = distinct (message kind, outcome) sequences",
